@@ -42,7 +42,7 @@ struct lru_ghost {
   int locks, unlocks, lock_err;
   int guard;                       /* 1: malloc/free/deleter/memcmp must run under a mutex */
   int guard_err;
-  int mallocs; void *last_malloc; size_t last_malloc_n;
+  int mallocs; void *last_malloc; size_t last_malloc_n; void *mal[3];
   int frees; void *freed[LRU_M + 2];
   int dels; void *del_value[LRU_M + 2]; size_t del_klen[LRU_M + 2]; uint8_t del_key[LRU_M + 2][LRU_K + 1];
   int del_after_free;              /* deleter ran on an already freed handle's key     */
@@ -52,6 +52,7 @@ struct lru_ghost {
 static void ghost_reset(void) {
   int i;
   X.held = NULL; X.last = NULL; X.locks = 0; X.unlocks = 0; X.lock_err = 0; X.guard = 0; X.guard_err = 0;
+  X.mal[0] = X.mal[1] = X.mal[2] = NULL;
   X.mallocs = 0; X.last_malloc = NULL; X.last_malloc_n = 0; X.frees = 0; X.dels = 0; X.del_after_free = 0;
   X.hashes = 0; X.hash_data = NULL; X.hash_size = 0; X.hash_seed = 0;
   for (i = 0; i < LRU_M + 2; i++) { X.freed[i] = NULL; X.del_value[i] = NULL; X.del_klen[i] = 0; }
@@ -73,6 +74,7 @@ void *ldb_malloc(size_t n) {
   void *p = malloc(n);
   __CPROVER_assume(p != NULL);
   if (X.guard && X.held == NULL) X.guard_err = 1;
+  if (X.mallocs < 3) X.mal[X.mallocs] = p;
   X.mallocs++; X.last_malloc = p; X.last_malloc_n = n;
   return p;
 }
@@ -116,6 +118,7 @@ uint32_t ldb_hash(const uint8_t *data, size_t size, uint32_t seed) {
 /* ---------------------------------------------------------- state builder */
 struct lru_snap { uint32_t refs, hash; int in_cache; size_t charge, klen; void *value; uint8_t key[LRU_K + 1]; int lru_pos; };
 static lru_handle_t *G[LRU_M];        /* every handle the harness knows                     */
+static lru_handle_t **g_list0;        /* the bucket array of the pre-state                  */
 static struct lru_snap S[LRU_M];      /* their pre-state                                    */
 static int g_n;                       /* number of handles in the table in the pre-state    */
 static int g_val[LRU_M + 2];          /* distinct value cookies                             */
@@ -155,6 +158,7 @@ static void mk_table(lru_table_t *t, uint32_t len) {
   t->length = len; t->elems = 0;
   t->list = malloc((len ? len : 1) * sizeof(lru_handle_t *));
   __CPROVER_assume(t->list != NULL);
+  g_list0 = t->list;
   for (b = 0; b < 8; b++) if (b < len) t->list[b] = NULL;
 }
 static void tbl_link(lru_table_t *t, lru_handle_t *h) {        /* at the head of its bucket */
@@ -182,13 +186,10 @@ static int idx_of(const lru_handle_t *p);
 /* one pass over the whole table: T.cnt[i] = how often handle i is chained, T.bkt[i] = its (last) bucket,
  * T.pos[i] = its position in that chain, T.total = number of chained nodes, T.bad = malformed */
 static struct tbl_scan { int cnt[LRU_M]; uint32_t bkt[LRU_M]; int pos[LRU_M]; int total; int bad; } T;
-static void tbl_scan(const lru_table_t *t) {
+static void tbl_scan_at(lru_handle_t *const *list, uint32_t length) {
   uint32_t b; int s, i;
-  for (i = 0; i < LRU_M; i++) { T.cnt[i] = 0; T.bkt[i] = 99; T.pos[i] = -1; }
-  T.total = 0; T.bad = 0;
-  if (t->length > 8 || t->list == NULL) { T.bad = 1; return; }
-  for (b = 0; b < 8; b++) if (b < t->length) {
-    const lru_handle_t *q = t->list[b];
+  for (b = 0; b < 8; b++) if (b < length) {
+    const lru_handle_t *q = list[b];
     for (s = 0; s < LRU_M; s++) if (q != NULL && !T.bad) {
       i = idx_of(q);
       if (i < 0 || was_freed(q)) T.bad = 1;
@@ -196,6 +197,18 @@ static void tbl_scan(const lru_table_t *t) {
     }
     if (q != NULL) T.bad = 1;
   }
+}
+static void tbl_scan(const lru_table_t *t) {
+  int i;
+  for (i = 0; i < LRU_M; i++) { T.cnt[i] = 0; T.bkt[i] = 99; T.pos[i] = -1; }
+  T.total = 0; T.bad = 0;
+  /* the bucket array is the one the harness built or one ldb_malloc handed out: scan it through that (concrete)
+   * pointer; after writes through list pointers CBMC no longer knows what g_shard.table.list points to */
+  if (t->length > 8 || was_freed(t->list)) T.bad = 1;
+  else if (t->list == g_list0) tbl_scan_at(g_list0, t->length);
+  else if (X.mallocs >= 1 && t->list == (lru_handle_t **)X.mal[0]) tbl_scan_at((lru_handle_t **)X.mal[0], t->length);
+  else if (X.mallocs >= 2 && t->list == (lru_handle_t **)X.mal[1]) tbl_scan_at((lru_handle_t **)X.mal[1], t->length);
+  else T.bad = 1;
 }
 /* handle i is chained exactly once, in the bucket of its hash */
 static int tbl_has(const lru_table_t *t, int i) { return !T.bad && T.cnt[i] == 1 && T.bkt[i] == (S[i].hash & (t->length - 1)); }
@@ -487,31 +500,39 @@ static void check_rep(void) {
   CHECK(is_pow2(SH->table.length) && SH->table.elems <= SH->table.length, "rep: table length is a power of two >= elems");
 }
 
+/* NOTE: snapshots are copied to a local before their key bytes are compared: a pointer into S[] at a symbolic
+ * index makes CBMC read S through a byte-level view of the whole array (measured: wrong byte values). */
 /* handle j is exactly as it was */
 static int unchanged(int j) {
-  const lru_handle_t *h = G[j];
+  const lru_handle_t *h = G[j]; struct lru_snap s = S[j];
   if (was_freed(h)) return 0;
-  return h->refs == S[j].refs && h->in_cache == S[j].in_cache && h->charge == S[j].charge && h->hash == S[j].hash &&
-         h->key_length == S[j].klen && h->value == S[j].value && h->deleter == model_deleter && bytes_eq(h->key_data, S[j].key, S[j].klen);
+  return h->refs == s.refs && h->in_cache == s.in_cache && h->charge == s.charge && h->hash == s.hash &&
+         h->key_length == s.klen && h->value == s.value && h->deleter == model_deleter && bytes_eq(h->key_data, s.key, s.klen);
+}
+/* number of deleter calls for handle j (values are distinct cookies); *keyok: the last one got j's key */
+static int del_calls(int j, int *keyok) {
+  int c, n = 0; struct lru_snap s = S[j];
+  *keyok = 0;
+  for (c = 0; c < LRU_M + 2; c++) if (c < X.dels && X.del_value[c] == s.value) {
+    n++; *keyok = (X.del_klen[c] == s.klen && bytes_eq(X.del_key[c], s.key, s.klen));
+  }
+  return n;
 }
 /* handle j went through unref-to-zero: deleter called exactly once with its key and value, then freed exactly once */
 static int destroyed(int j) {
-  int c, n = 0, keyok = 0;
-  for (c = 0; c < LRU_M + 2; c++) if (c < X.dels && X.del_value[c] == S[j].value) {
-    n++; keyok = (X.del_klen[c] == S[j].klen && bytes_eq(X.del_key[c], S[j].key, S[j].klen));
-  }
+  int keyok, n = del_calls(j, &keyok);
   return was_freed(G[j]) == 1 && n == 1 && keyok;
 }
 static int not_destroyed(int j) {
-  int c, n = 0;
-  for (c = 0; c < LRU_M + 2; c++) if (c < X.dels && X.del_value[c] == S[j].value) n++;
+  int keyok, n = del_calls(j, &keyok);
   return was_freed(G[j]) == 0 && n == 0;
 }
 /* handle j was taken out of the cache (lru_shard_finish): destroyed if the cache held the only reference,
  * otherwise detached with one reference less */
 static int finished(int j) {
-  if (S[j].refs == 1) return destroyed(j);
-  return not_destroyed(j) && G[j]->in_cache == 0 && G[j]->refs == S[j].refs - 1 && G[j]->value == S[j].value && G[j]->key_length == S[j].klen;
+  struct lru_snap s = S[j];
+  if (s.refs == 1) return destroyed(j);
+  return not_destroyed(j) && G[j]->in_cache == 0 && G[j]->refs == s.refs - 1 && G[j]->value == s.value && G[j]->key_length == s.klen;
 }
 static int mutex_ok(void) {
   return X.locks == 1 && X.unlocks == 1 && X.last == &SH->mutex && X.held == NULL && !X.lock_err && !X.guard_err;
